@@ -145,6 +145,10 @@ def check_symbol_redeclaration(program: "List[AbstractOperation]") -> Messages:
     for op in program:
         if op.name in ("CONSTANT", "LABEL", "DLABEL") and len(op.args) >= 1:
             symbol = op.args[0]
+            if not isinstance(symbol, str):
+                # Not a symbol at all: the operation's own type check reports it.
+                continue
+
             if symbol in symbols:
                 messages.err(
                     "symbol `{}` has already been defined".format(symbol), loc=op.loc
